@@ -26,6 +26,7 @@ import (
 	"math/rand"
 	"sort"
 	"strings"
+	"sync"
 	"sync/atomic"
 	"time"
 
@@ -260,6 +261,33 @@ type sub struct {
 	rounds  int
 	roundAt int
 	rmSince bool
+	// Single-target STREAM subscribers: a peer that stops reading (every Send
+	// blocks while stall is set); rmPending names the target whose removal the
+	// stalled stream still has to be judged for once the peer reads again.
+	stallMu   sync.Mutex
+	stall     chan struct{}
+	rmPending string
+}
+
+func (s *sub) gate(int, *pb.SubscribeResponse) error {
+	s.stallMu.Lock()
+	ch := s.stall
+	s.stallMu.Unlock()
+	if ch != nil {
+		<-ch
+	}
+	return nil
+}
+
+func (s *sub) setStall(on bool) {
+	s.stallMu.Lock()
+	defer s.stallMu.Unlock()
+	if on && s.stall == nil {
+		s.stall = make(chan struct{})
+	} else if !on && s.stall != nil {
+		close(s.stall)
+		s.stall = nil
+	}
 }
 
 func (s *sub) ended() bool {
@@ -897,6 +925,10 @@ func (h *harness) checkRemove(x string, pre, post map[string]*tsnap, fe []*pb.No
 			}
 			continue
 		}
+		if s.rmPending == x {
+			s.finished = true // judged by releaseStalled once the peer reads again
+			continue
+		}
 		h.judgeRemovedStream(s, x)
 		if h.failed || h.aborted {
 			return
@@ -1009,6 +1041,9 @@ func (h *harness) request(target string, sh subShape, poll bool) *pb.SubscribeRe
 func (h *harness) start(target string, sh subShape, poll bool) *sub {
 	s := &sub{ID: len(h.subs), Target: target, Shape: sh, Poll: poll, done: make(chan struct{})}
 	s.st = vlib.NewStream(context.Background(), "c14")
+	if !poll && target != "*" {
+		s.st.SendGate = s.gate
+	}
 	s.st.Push(h.request(target, sh, poll))
 	go func() {
 		s.err = h.srv.Subscribe(s.st)
@@ -1070,7 +1105,47 @@ func (h *harness) subscribeUnknown(x string) {
 // finish: sentinels to every remaining target, then every open stream is
 // brought to quiescence (a probe entry behind everything else) and what it was
 // sent, replayed, must be the cache content it selects.
+// releaseStalled lets the stalled peers of the removed target x (every target
+// when x is empty) read again and judges the end of their streams. readded:
+// the target exists again by now; a leaf written to the new incarnation
+// first makes sure there is something queued behind the whole-target delete.
+func (h *harness) releaseStalled(x string, readded bool) {
+	for _, s := range h.subs {
+		if s.rmPending == "" || (x != "" && s.rmPending != x) {
+			continue
+		}
+		t := s.rmPending
+		s.rmPending = ""
+		if readded {
+			pre, p, _ := leafShape(0, t)
+			n := &pb.Notification{Timestamp: h.timestamp(), Prefix: pre, Update: []*pb.Update{{Path: p, Val: gen.S("readded")}}}
+			h.guard("GnmiUpdate", func() { h.c.GnmiUpdate(n) })
+			if h.failed {
+				return
+			}
+			h.count("stalled_peer_released_after_re_add", 1)
+		} else {
+			h.count("stalled_peer_released_at_end", 1)
+		}
+		s.setStall(false)
+		h.judgeRemovedStream(s, t)
+		if h.failed || h.aborted {
+			return
+		}
+	}
+	if readded {
+		var mm *mismatch
+		if h.cur, mm = h.snapshot(); mm != nil {
+			h.fail(mm.sig, mm.what)
+		}
+	}
+}
+
 func (h *harness) finish() {
+	h.releaseStalled("", false)
+	if h.failed || h.aborted {
+		return
+	}
 	var live []string
 	for _, t := range h.names {
 		if h.present[t] {
@@ -1189,6 +1264,7 @@ func (h *harness) finish() {
 
 func (h *harness) cleanup() {
 	for _, s := range h.subs {
+		s.setStall(false)
 		s.st.Cancel()
 	}
 	for _, s := range h.subs {
@@ -1324,6 +1400,20 @@ func (h *harness) run(nsteps int) {
 					}
 				}
 			}
+			// By seed the peers of the target's single-target STREAM subscribers stop
+			// reading before the removal and resume only after the target has been
+			// added again (or at the end of the history): the stream subscribed to
+			// the removed target and must still end with the whole-target delete.
+			if rng.Intn(5) < 2 {
+				for _, s := range h.subs {
+					if !s.finished && !s.Poll && s.Target == st.Target && h.present[s.Target] {
+						s.setStall(true)
+						s.rmPending = st.Target
+						st.Arg = "peers-stalled"
+						h.count("remove_with_stalled_single_target_peer", 1)
+					}
+				}
+			}
 			op = func() { h.c.Remove(st.Target) }
 		case x < 96 && len(absent) > 0:
 			st.Kind, st.Target = "add", absent[rng.Intn(len(absent))]
@@ -1395,6 +1485,9 @@ func (h *harness) run(nsteps int) {
 			h.checkRemove(st.Target, pre, post, fe)
 		case "add":
 			h.checkFresh(st.Target, post, fe)
+			if !h.failed && !h.aborted {
+				h.releaseStalled(st.Target, true)
+			}
 		default:
 			if !h.present[st.Target] {
 				// Anything addressed to an unknown target leaves it unknown and silent.
